@@ -49,14 +49,24 @@ def replay_cases(v, exe, cases, rand, seed, dims, level):
         lines_in.append("RAND %d %d %d %d" % (i, dims[i % len(dims)], seed * 1000003 + i, (i // len(dims)) % 2))
     rc, lines, err = vlib.run_lines(exe, "\n".join(lines_in) + "\n", timeout=900)
     done = [l for l in lines if l.startswith("DONE")]
-    if rc != 0 or not done or any(l.startswith("BADINPUT") for l in lines):
-        raise Infra("eigen_replay failed rc=%s: %s %s" % (rc, "\n".join(lines[-5:]), err[-2000:]))
-    _, nc, ncalls, nf, mev, mres = done[0].split()
-    if int(nc) != len(cases) + nrand:
-        raise Infra("eigen_replay consumed %s of %d cases" % (nc, len(cases) + nrand))
+    if any(l.startswith("BADINPUT") for l in lines):
+        raise Infra("eigen_replay rejected its input: %s" % "\n".join(lines[-3:]))
+    crashed = (rc != 0 or not done)
+    if crashed:
+        # the replayer died inside the library (signal / abort from the allocator): memory was corrupted by a call.
+        # Failures reported before the crash are still judged; the crash itself is a violation (never seen on a sound tree).
+        v.violation("GetEigenSystem/crash", "eigen_replay died with rc=%s after %d reported failures: %s" % (rc, sum(1 for l in lines if l.startswith("FAIL")), err[-600:]),
+                    {"stderr": err[-2000:]})
+        ncalls = 0; mev = mres = 0.0
+    else:
+        _, nc, ncalls, nf, mev, mres = done[0].split()
+        if int(nc) != len(cases) + nrand:
+            raise Infra("eigen_replay consumed %s of %d cases" % (nc, len(cases) + nrand))
     for l in lines:
         if not l.startswith("FAIL"):
             continue
+        if " : " not in l or len(l.split(" : ", 1)[0].split()) != 6:
+            continue        # truncated last line of a crashed run
         head, text = l.split(" : ", 1)
         _, cid, order, what, errv, tol = head.split()
         cid = int(cid)
